@@ -49,7 +49,7 @@ fn main() {
             for run in from..runs {
                 let s = prng::mix(seed, "explore", run);
                 let (init, mut src, _shape) = make_run(s, focus);
-                let out = exec::execute(&init, &mut src, std::env::var("DNSSIM_TRACE").is_ok());
+                let out = exec::execute(&init, &mut src, std::env::var("DNSSIM_TRACE").is_ok(), "");
                 steps += out.steps;
                 if let Some(r) = out.rejected {
                     rejected += 1;
@@ -110,7 +110,7 @@ fn main() {
         "replay-json" => {
             let sc: ops::Scenario = serde_json::from_str(&args[2]).expect("scenario json");
             let mut src = exec::Scripted::new(sc.ops.clone());
-            let out = exec::execute(&sc.init, &mut src, true);
+            let out = exec::execute(&sc.init, &mut src, true, "");
             println!("{:?}", out.violation);
         }
         _ => {
